@@ -5,6 +5,7 @@ import (
 	"encoding/json"
 	"fmt"
 	"os"
+	"runtime"
 	"strconv"
 	"strings"
 	"sync"
@@ -51,7 +52,7 @@ func fixedC16Scenario() c16Scenario {
 			{Method: ovsdb.ConditionalMonitorSinceRPC, Tables: map[string][]string{"T0": nil}},
 			{Method: ovsdb.ConditionalMonitorRPC, Tables: map[string][]string{"T1": nil, "T2": nil}},
 		},
-		Steps: []string{"foreign-insert", "monitor:0", "own", "monitor:1", "foreign-insert", "own", "foreign-delete", "echo", "foreign-update", "own", "foreign-insert"},
+		Steps: []string{"foreign-insert", "monitor:0", "own-invalid", "own", "monitor:1", "foreign-insert", "own", "foreign-delete", "echo", "foreign-update", "own", "foreign-insert"},
 	}
 }
 
@@ -78,13 +79,69 @@ func genC16Scenario(t *rapid.T) c16Scenario {
 			next++
 			continue
 		}
-		sc.Steps = append(sc.Steps, rapid.SampledFrom([]string{"own", "own", "foreign-insert", "foreign-insert", "foreign-delete", "foreign-update", "echo"}).Draw(t, "step"))
+		sc.Steps = append(sc.Steps, rapid.SampledFrom([]string{"own", "own", "own-invalid", "foreign-insert", "foreign-insert", "foreign-delete", "foreign-update", "echo"}).Draw(t, "step"))
 	}
 	return sc
 }
 
-// runC16 runs a scenario under a fault plan and evaluates the oracle.
+// runC16 runs a scenario under a fault plan and evaluates the oracle. A scenario takes a
+// second or two (at most about a minute when the client needs the whole allowance to come
+// back). If it has not finished after 200 s and goroutines are parked on locks or channels
+// inside libovsdb/client, the client is wedged: it will never re-establish anything, which is
+// reported as such (with the parked goroutines) instead of being left to the driver's
+// watchdog.
 func runC16(w *kit.World, sc c16Scenario, faults []kit.Fault) c16Outcome {
+	done := make(chan c16Outcome, 1)
+	go func() { done <- runC16Unguarded(w, sc, faults) }()
+	for {
+		select {
+		case out := <-done:
+			return out
+		case <-time.After(200 * time.Second):
+			buf := make([]byte, 1<<20)
+			buf = buf[:runtime.Stack(buf, true)]
+			blocked := wedgedInClient(string(buf))
+			if blocked == "" {
+				// slow, not wedged: go on waiting (the driver's watchdog bounds this)
+				continue
+			}
+			out := c16Outcome{Established: make([]bool, len(sc.Monitors))}
+			out.Class = "reconnect.wedged"
+			out.Problems = []string{"200 s after the scenario started it has not finished: calls on the client do not return, goroutines are parked inside the client:\n" + blocked}
+			return out
+		}
+	}
+}
+
+// wedgedInClient returns the goroutines of a stack dump that have been waiting for a mutex
+// for minutes inside libovsdb/client (no lock of the client is legitimately held that long:
+// the longest holder is one connection attempt, bounded by the client's timeout of seconds).
+func wedgedInClient(stacks string) string {
+	var out []string
+	for _, g := range strings.Split(stacks, "\n\n") {
+		head := g
+		if i := strings.Index(g, "\n"); i >= 0 {
+			head = g[:i]
+		}
+		if !strings.Contains(head, "minutes]") || !(strings.Contains(head, "Mutex") || strings.Contains(head, "semacquire")) {
+			continue
+		}
+		if !strings.Contains(g, "libovsdb/client.") {
+			continue
+		}
+		lines := strings.Split(g, "\n")
+		if len(lines) > 12 {
+			lines = lines[:12]
+		}
+		out = append(out, strings.Join(lines, "\n"))
+	}
+	if len(out) > 4 {
+		out = out[:4]
+	}
+	return strings.Join(out, "\n\n")
+}
+
+func runC16Unguarded(w *kit.World, sc c16Scenario, faults []kit.Fault) c16Outcome {
 	out := c16Outcome{Established: make([]bool, len(sc.Monitors))}
 	problem := func(class, format string, args ...interface{}) {
 		if out.Class == "" {
@@ -195,6 +252,15 @@ func runC16(w *kit.World, sc c16Scenario, faults []kit.Fault) c16Outcome {
 				out.OwnOK = append(out.OwnOK, marker)
 			} else {
 				out.OwnErr = append(out.OwnErr, marker)
+			}
+		case step == "own-invalid":
+			// a transaction the client refuses itself (unknown column): nothing is sent, and nothing
+			// of it may matter later
+			ctx, cancel := context.WithTimeout(bg, callTimeout)
+			_, err := c.Transact(ctx, ovsdb.Operation{Op: "insert", Table: "T0", Row: ovsdb.Row{"nosuchcolumn": 1}})
+			cancel()
+			if err == nil {
+				problem("harness", "a transaction on an unknown column was accepted by the client")
 			}
 		case step == "foreign-insert":
 			fresh++
